@@ -1,3 +1,6 @@
 import GraphSlam.Props.C08.Representation
 import GraphSlam.Props.E2E.Step
+import GraphSlam.Props.Tie.GraphPy
+import GraphSlam.Props.E2E.Relabel
+import GraphSlam.Props.E2E.VertexPermExample
 /-! C08 — umbrella. -/
